@@ -1038,6 +1038,9 @@ def list_method(I, ref, o: AList, name, args, kwargs, node):
     if name in mut:
         I.emit("MUT", node, obj=ref.addr, label=o.base, method=name, args=tuple(args))
     if o.items is None:
+        if name == "clear":
+            o.items = []
+            return NONE
         if name == "pop":
             return o.elem if o.elem is not None else Unk(I.fresh(f"pop({o.base})"), "elem")
         if name in ("index", "count"):
